@@ -719,7 +719,8 @@ func scnNFTTransfer(o Opt) *Scn {
 	if o.Side == 2 {
 		// destination side: protocol-generated message
 		s.Dst = s.W.NewAccount("dst", addr32("dst.addr"))
-		qty := verif.Int("p.qty")
+		// a sender side always emits quantity argument == payload value
+		qty := num(s.Amt)
 		verif.Assume(qty.Sign() > 0)
 		n := nonceOf(s.NonceB)
 		verif.Assume(n > 0)
